@@ -5,6 +5,8 @@
 //	                                                 executed on the real code; one result record per
 //	                                                 (case, package, operation) for TLC to judge
 //	c16 record <results.ndjson> <n>                  seeded random small values with explicit bytes
+//	c16 record-hist <results.ndjson> <cases> <h> <len>  h seeded random operation sequences of length len per key
+//	                                                 type, each applied to ONE ct.SignatureVerifier
 //	c16 replay <replay.json> <results.ndjson>        one case again (fresh process)
 //
 // The harness builds real values from abstract ones, runs zcrypto, and projects the outcome
@@ -124,6 +126,21 @@ type Case struct {
 	Algs      []int           `json:"algs,omitempty"`
 	VerKey    string          `json:"verkey,omitempty"`
 	Obs       bool            `json:"obs,omitempty"` // replay of a random observation: explicit bytes, TLC compares
+	// verifier histories (kind "vseq"): operation table and sequences of 1-based operation indices
+	Ops  []VOp   `json:"ops,omitempty"`
+	Seqs [][]int `json:"seqs,omitempty"`
+}
+
+// VOp is one operation of CTCodec.tla's VerifierOps, concretised by CTCodecGen.tla (HOp).
+type VOp struct {
+	Obj       string          `json:"obj"`
+	Mut       string          `json:"mut"`
+	Demand    string          `json:"demand"`
+	Signed    Want            `json:"signed"`
+	Presented json.RawMessage `json:"presented"`
+	SigMut    string          `json:"sigmut"`
+	SignKey   string          `json:"signkey"`
+	Algs      []int           `json:"algs"`
 }
 
 // R is the projected outcome of one operation.
@@ -148,6 +165,11 @@ type Result struct {
 	Mut      string          `json:"mut"`
 	Accepted bool            `json:"accepted"`
 	Note     string          `json:"note,omitempty"`
+	// op = "vseq": the operations applied to ONE verifier object and its verdicts
+	Key  string   `json:"key,omitempty"`
+	Seq  []int    `json:"seq,omitempty"`
+	Acc  []bool   `json:"acc,omitempty"`
+	Muts []string `json:"muts,omitempty"` // informational (signature of a candidate), not used by TLC
 }
 
 func u64(b []int) uint64 {
@@ -207,6 +229,15 @@ func serResult(out []byte, err error, want Want, replen int, rt func(out []byte)
 	return r
 }
 
+// hereBuf is shared by all SerializeSCTHere calls of the process.
+var hereBuf = func() []byte {
+	b := make([]byte, 2*(1<<16)+200)
+	for i := range b {
+		b[i] = 0xEE
+	}
+	return b
+}()
+
 func runCase(ci int, c Case, emit func(Result)) {
 	var lastOut []byte
 	res := func(pkg, op string, r R, note string) {
@@ -221,7 +252,7 @@ func runCase(ci int, c Case, emit func(Result)) {
 		return serResult(out, err, want, replen, rt)
 	}
 	var v Val
-	if c.Kind != "verify" {
+	if c.Kind != "verify" && c.Kind != "vseq" {
 		if err := json.Unmarshal(c.Val, &v); err != nil {
 			obs.Fatal("case %d: %v", ci, err)
 		}
@@ -275,11 +306,11 @@ func runCase(ci int, c Case, emit func(Result)) {
 			res("ct", "ser", serResult(out, err, c.Want, replen, rt), p)
 		}
 		{
-			// into a caller-provided buffer that is larger than needed
+			// into ONE caller-provided buffer that is reused, uncleared, for every SCT of the run
+			// (larger than needed, still holding the previous outputs)
 			var out []byte
 			var err error
-			buf := make([]byte, 2*(1<<16)+200)
-			p := guard(func() { out, err = ct.SerializeSCTHere(sct, buf) })
+			p := guard(func() { out, err = ct.SerializeSCTHere(sct, hereBuf) })
 			res("ct", "ser", serResult(out, err, c.Want, replen, rt), "here "+p)
 		}
 		if c.Want.OK {
@@ -344,6 +375,11 @@ func runCase(ci int, c Case, emit func(Result)) {
 		var err error
 		p := guard(func() { out, err = ct.SerializeSTHSignatureInput(sth) })
 		res("ct", "ser", serResult(out, err, c.Want, -1, func([]byte) bool { return true }), p)
+	case "vseq":
+		vs := prepareOps(c.Key, c.Ops)
+		for _, seq := range c.Seqs {
+			emit(runHistory(ci, c.Key, vs, c.Ops, seq, "gen"))
+		}
 	case "verify":
 		acc, note := runVerify(c)
 		emit(Result{Src: "gen", Case: ci, Kind: "verify", Pkg: "ct", Op: "verify", Val: c.Presented, Out: []int{}, Mut: c.Mut, Accepted: acc,
@@ -468,6 +504,95 @@ func runVerify(c Case) (accepted bool, note string) {
 	return true, ""
 }
 
+// ---------------------------------------------------------------------------- verifier histories
+
+// prepareOps builds, once per operation, the presented object and its (mutated) signature; the
+// returned closures only call the verifier.
+func prepareOps(key string, ops []VOp) []func(*ct.SignatureVerifier) bool {
+	sigCache := map[string][]byte{}
+	out := make([]func(*ct.SignatureVerifier) bool, len(ops))
+	for i := range ops {
+		op := ops[i]
+		if !op.Signed.OK {
+			obs.Fatal("history operation without a signed input")
+		}
+		ck := op.SignKey + "/" + op.Obj
+		if _, ok := sigCache[ck]; !ok {
+			sigCache[ck] = sign(op.SignKey, op.Signed.expand())
+		}
+		var pv Val
+		if err := json.Unmarshal(op.Presented, &pv); err != nil {
+			obs.Fatal("presented: %v", err)
+		}
+		ds := ct.DigitallySigned{HashAlgorithm: ct.HashAlgorithm(op.Algs[0]), SignatureAlgorithm: ct.SignatureAlgorithm(op.Algs[1]),
+			Signature: mutateSig(sigCache[ck], op.SigMut)}
+		if op.Obj == "sth" {
+			sth := sthOf(&pv)
+			sth.TreeHeadSignature = ds
+			out[i] = func(v *ct.SignatureVerifier) bool { return v.VerifySTHSignature(sth) == nil }
+		} else {
+			sct, entry := sctAndEntry(&pv)
+			sct.Signature = ds
+			out[i] = func(v *ct.SignatureVerifier) bool { return v.VerifySCTSignature(sct, entry) == nil }
+		}
+	}
+	return out
+}
+
+// runHistory applies the operations seq (1-based indices) to ONE fresh verifier object.
+func runHistory(ci int, key string, vs []func(*ct.SignatureVerifier) bool, ops []VOp, seq []int, src string) Result {
+	ver, err := ct.NewSignatureVerifier(pubFor(key))
+	if err != nil {
+		obs.Fatal("NewSignatureVerifier(%s): %v", key, err)
+	}
+	r := Result{Src: src, Case: ci, Kind: "vseq", Pkg: "ct", Op: "vseq", Val: json.RawMessage("{}"), Out: []int{},
+		Key: key, Seq: seq, Acc: make([]bool, len(seq)), Muts: make([]string, len(seq))}
+	p := guard(func() {
+		for k, id := range seq {
+			r.Acc[k] = vs[id-1](ver)
+			r.Muts[k] = ops[id-1].Obj + "/" + ops[id-1].Mut
+		}
+	})
+	r.Note = p
+	return r
+}
+
+// recordHistories: long seeded random operation sequences, each on one shared verifier.
+func recordHistories(w *obs.Writer, casesPath string, n, length int) {
+	rng := mrand.New(mrand.NewSource(obs.Seed()*131 + 9))
+	err := obs.ReadLines(casesPath, func(line []byte) error {
+		if !bytes.Contains(line, []byte(`"vseq"`)) {
+			return nil
+		}
+		c := readCase(append([]byte{}, line...))
+		if c.Kind != "vseq" {
+			return nil
+		}
+		vs := prepareOps(c.Key, c.Ops)
+		for i := 0; i < n; i++ {
+			seq := make([]int, length)
+			for k := range seq {
+				if rng.Intn(3) == 0 { // genuine operations are a third of the traffic
+					for {
+						id := 1 + rng.Intn(len(c.Ops))
+						if c.Ops[id-1].Mut == "none" {
+							seq[k] = id
+							break
+						}
+					}
+				} else {
+					seq[k] = 1 + rng.Intn(len(c.Ops))
+				}
+			}
+			w.Write(runHistory(i, c.Key, vs, c.Ops, seq, "obs"))
+		}
+		return nil
+	})
+	if err != nil {
+		obs.Fatal("%v", err)
+	}
+}
+
 // ---------------------------------------------------------------------------- random observations
 
 func fldB(b []byte) *Fld {
@@ -543,6 +668,16 @@ func record(path string, n int) {
 					sameDS(int(d.Signature.HashAlgorithm), int(d.Signature.SignatureAlgorithm), d.Signature.Signature, v.DS)
 			}
 			w.Write(Result{Src: "obs", Case: i, Kind: "sct", Pkg: "ct", Op: "ser", Val: raw, R: R{Err: err != nil, N: len(out), RT: rt, RepLen: replen}, Out: ints(out)})
+			// the same value again through the shared, uncleared buffer (back to back with earlier values)
+			out2, err2 := ct.SerializeSCTHere(sct, hereBuf)
+			rt2 := false
+			if err2 == nil {
+				d, e := ct.DeserializeSCT(bytes.NewReader(out2))
+				rt2 = e == nil && int(d.SCTVersion) == v.Ver && d.LogID == arr32(v.LogID) && d.Timestamp == u64(v.TS) &&
+					bytes.Equal(d.Extensions, fb(v.Ext)) &&
+					sameDS(int(d.Signature.HashAlgorithm), int(d.Signature.SignatureAlgorithm), d.Signature.Signature, v.DS)
+			}
+			w.Write(Result{Src: "obs", Case: i, Kind: "sct", Pkg: "ct", Op: "ser", Val: raw, R: R{Err: err2 != nil, N: len(out2), RT: rt2, RepLen: replen}, Out: ints(out2), Note: "here"})
 		case 2: // SCT signature input
 			ikh := make([]byte, 32)
 			rng.Read(ikh)
@@ -600,6 +735,17 @@ func main() {
 	case "record":
 		n, _ := strconv.Atoi(os.Args[3])
 		record(os.Args[2], n)
+	case "record-hist":
+		// record-hist <out> <cases.ndjson> <histories per key> <length>
+		if len(os.Args) < 6 {
+			obs.Fatal("usage: record-hist <out> <cases> <n> <len>")
+		}
+		h, _ := strconv.Atoi(os.Args[4])
+		l, _ := strconv.Atoi(os.Args[5])
+		w := obs.NewWriter(os.Args[2])
+		recordHistories(w, os.Args[3], h, l)
+		w.Close()
+		obs.Stat("history_records", w.N)
 	case "replay":
 		var c Case
 		obs.ReadReplay(os.Args[2], &c)
